@@ -915,6 +915,14 @@ impl Rig {
                 }
                 verif::trace::emit(json!({"e": "ClockStep", "secs": secs, "wall_before_ms": before, "wall_after_ms": wall()}));
             }
+            "hog_blocking_pool" => {
+                // other blocking jobs keep the runtime's blocking pool busy for a while
+                let ms = st["ms"].as_u64().unwrap_or(1000);
+                for _ in 0..st["n"].as_u64().unwrap_or(1) {
+                    self.rt.spawn_blocking(move || std::thread::sleep(Duration::from_millis(ms)));
+                }
+                verif::trace::emit(json!({"e": "PoolHogged", "ms": ms}));
+            }
             "arm" => verif::sched::arm(st["label"].as_str().unwrap(), st["skip"].as_u64().unwrap_or(0) as usize),
             "disarm" => verif::sched::disarm(st["label"].as_str().unwrap()),
             "release" => {
@@ -1149,11 +1157,13 @@ pub fn main() -> i32 {
     let script: Value = serde_json::from_str(&std::fs::read_to_string(env("VERIF_SCRIPT")).expect("script")).expect("script json");
     verif::trace::set_file(&env("VERIF_OUT"));
     verif::audit::enable();
-    let rt = tokio::runtime::Builder::new_multi_thread()
-        .worker_threads(4)
-        .enable_all()
-        .build()
-        .unwrap();
+    let mut rtb = tokio::runtime::Builder::new_multi_thread();
+    rtb.worker_threads(4).enable_all();
+    if let Some(n) = script["max_blocking_threads"].as_u64() {
+        // a machine on which the blocking pool cannot grow (thread / pids limit): jobs handed to it wait their turn
+        rtb.max_blocking_threads(n as usize);
+    }
+    let rt = rtb.build().unwrap();
     let port = script["proxy_port"].as_u64().unwrap_or(3080) as u16;
     for h in script["hosts"].as_array().cloned().unwrap_or_default() {
         if let Err(e) = start_host(h["name"].as_str().unwrap(), h["addr"].as_str().unwrap()) {
